@@ -11,8 +11,9 @@ C16  a `state` object is a value
        set from a private deep copy, nothing else running).
 
 C19  resetting restores the construction-time distribution, every time
-     * real chains, steps and resets interleaved (0-4 resets, also back to back and
-       before any step): after each reset every distribution attribute is compared
+     * real chains, steps and resets interleaved (0-4 resets, also back to back,
+       before any step, and before the first completed proposal step of a proposal
+       with a jump interval): a reset never raises; after each reset every distribution attribute is compared
        bit for bit with its construction-time value, `start_step == nsteps`, and
        the following trajectory with that of a freshly constructed proposal that
        is given the same clock, position and random stream;
@@ -60,12 +61,19 @@ def leaf(v):
         return ('f', v.hex())
     if isinstance(v, (int, bool, str, type(None))):
         return ('o', repr(v))
+    if isinstance(v, (set, frozenset)):      # repr of a (frozen)set depends on its construction history
+        return ('s', tuple(sorted(repr(x) for x in v)))
     return ('r', repr(v))
 
 
 def keytext(k):
-    if isinstance(k, frozenset):
+    """Canonical text of a dictionary key (a frozenset prints in an order that depends on how it
+    was built, e.g. after unpickling)."""
+    if isinstance(k, (set, frozenset)):
         return 'fs:' + ','.join(sorted(str(x) for x in k))
+    if isinstance(k, tuple):
+        return '(' + ', '.join(keytext(x) if isinstance(x, (set, frozenset, tuple)) else repr(x) for x in k) + \
+            (',)' if len(k) == 1 else ')')
     return repr(k)
 
 
@@ -99,7 +107,7 @@ def dist_digest(prop):
     out = {}
     for k, v in dist_attrs(prop).items():
         if isinstance(v, dict):
-            out[k] = ('d', repr(sorted((str(a), repr(b)) for a, b in v.items())))
+            out[k] = ('d', repr(sorted((keytext(a), repr(leaf(b))) for a, b in v.items())))
         else:
             out[k] = leaf(v)
     return out
@@ -370,7 +378,7 @@ def c16_snapshot_case(setup, seed, sched):
                     try:
                         lv.reset_proposals()
                     except ValueError:
-                        pass          # reset before the first proposal step: see C19
+                        pass          # a reset that raises is C19's matter
     nontrivial = 0
     end = adaptive_total(s)
     for which, obj, dg, adp, it in snaps:
@@ -593,19 +601,19 @@ def c19_reset_case(setup, seed, segs, compare_steps=None):
             zero = [p for p in adaptive if p.nsteps < 1]
             if isinstance(e, ValueError) and zero:
                 info['rejected'] += 1
-                # what the code does there: raises, and must then have changed nothing
-                if [dist_digest(p) for p in props] != before_all and ch.iteration == 0:
-                    pass
-                if ch.iteration > 0:
-                    report('reset_raises_before_first_proposal_step',
-                           'Chain.reset_proposals() after %d chain step(s) raised %r: the proposal has jump_interval %d, so '
-                           'nsteps is still 0 and the start_step setter rejects it' % (ch.iteration, e, setup.k),
-                           dict(expected='the reset restarts the window at the current step', observed=repr(e)))
+                report('reset_raises_before_first_proposal_step',
+                       'Chain.reset_proposals() after %d chain step(s) raised %r: a proposal (jump_interval %d) has not '
+                       'completed a proposal step yet, nsteps is 0 and the start_step setter rejects it' % (
+                           ch.iteration, e, setup.k),
+                       dict(expected='the reset succeeds and the window restarts at step max(nsteps, 1)',
+                            observed=repr(e)))
                 continue
             report('reset_raises:%s' % type(e).__name__,
                    'Chain.reset_proposals() raised %r at iteration %d' % (e, ch.iteration),
                    dict(expected='no exception', observed=traceback.format_exc()[-600:]))
             continue
+        if any(p.nsteps < 1 for p in adaptive):
+            info['at_nsteps0'] = info.get('at_nsteps0', 0) + 1
         nreset += 1
         info['resets'] += 1
         info['phases'] += phases
@@ -622,7 +630,7 @@ def c19_reset_case(setup, seed, segs, compare_steps=None):
                        dict(expected='bit-identical to construction', observed='stale attributes %s' % stale,
                             reset_number=nreset))
             # `start_step` cannot be 0 (its setter refuses): at nsteps == 0 "the current step" is step 1,
-            # the constructor's own default
+            # the constructor's own default; the code does `start_step = max(nsteps, 1)`
             if p.start_step != max(p.nsteps, 1):
                 report('reset_start_step',
                        'after a reset start_step=%r but nsteps=%r' % (p.start_step, p.nsteps),
@@ -800,7 +808,7 @@ def snapshot_sched(rng, T):
 def reset_segs(rng, T, nres):
     out = []
     if rng.random() < 0.25:
-        out.append(('reset',))              # before any step: what does the code do?
+        out.append(('reset',))              # before any step: succeeds, window starts at step 1
     out.append(('step', rng.choice([1, 2, 3, T // 2 + 1])))
     for i in range(nres):
         out.append(('reset',))
